@@ -15,8 +15,8 @@ from lib import tlc, build, tracev
 from lib.ctx import MachineryError
 from harness.mt import mtlib
 
-QUICK_MC = ["q_plain", "q_flush", "q_fail", "q_timeout", "nw1", "live"]
-ALL_MC = ["plain", "bs1", "flush", "q_barrier", "fail", "spur", "timeout", "nw1", "live"]
+QUICK_MC = ["q_plain", "q_flush", "q_fail", "q_timeout", "nw1", "live", "reinit"]
+ALL_MC = ["plain", "bs1", "flush", "q_barrier", "fail", "spur", "timeout", "nw1", "live", "reinit"]
 
 def model_check(ctx):
     names = QUICK_MC if ctx.quick else ALL_MC
@@ -26,10 +26,36 @@ def model_check(ctx):
         for n, r in ex.map(go, names):
             ctx.add_tlc("MCMtEncoder_" + n, r, exhaustive=True)
             ctx.log("MC", n, r.summary())
+            if n == "reinit" and r.violation == "NoLostWorker":
+                # the code as it is (FixLostWorker = FALSE): known defect, found by TLC after a few steps
+                ctx.violation("reinit-busy:model:NoLostWorker", "TLC: MCMtEncoder_reinit.cfg violates NoLostWorker (the transcription of "
+                              "worker_start()/threads_stop(coder, true) loses a worker that was stopped before it started)", dict(kind="tlc", cfg=n))
+                continue
             if r.violation:
                 ctx.violation("model:%s:%s" % (n, r.violation),
                               "TLC: the model of stream_encoder_mt.c violates %s in configuration %s\n%s" % (r.violation, n, r.out[-3000:]),
                               dict(kind="tlc", cfg=n))
+
+def lost_unstarted_worker(evs):
+    """Signature of the known re-init defect in a hung run: some worker was started (GtStart) before the
+    re-initialisation, never began encoding (no WEncInit/WError), acknowledged STOP at the top of its loop
+    afterwards and never reached WFinCoder again."""
+    ri = [i for i, e in enumerate(evs) if e["e"] == "AppReinit"]
+    if not ri:
+        return False
+    ri = ri[-1]
+    for w in set(e["w"] for e in evs if e["e"] == "GtStart"):
+        starts = [i for i, e in enumerate(evs[:ri]) if e["e"] == "GtStart" and e["w"] == w]
+        if not starts:
+            continue
+        g0 = starts[-1]
+        began = any(e["e"] in ("WEncInit", "WError") and e["w"] == w for e in evs[g0:ri])
+        # it may also begin right after the re-init started; lost only if it acknowledged STOP while idle-looping
+        acked = any(e["e"] == "WTop" and e["w"] == w and e.get("ack") == 1 and e["a"] == 0 for e in evs[g0:])
+        returned = any(e["e"] == "WFinCoder" and e["w"] == w for e in evs[g0:])
+        if not began and acked and not returned:
+            return True
+    return False
 
 def expected_boundaries(total, bs, offsets):
     """Uncompressed sizes of the Blocks: full Blocks of bs, cut at every requested offset and at the end."""
@@ -73,9 +99,13 @@ def run(ctx):
                     acts = [a for i, a in enumerate(acts) if i == 0 or a[1] != acts[i - 1][1]]
                 seed = ctx.seed * 1000 + 31 * len(jobs) + k
                 endafter = rng.randint(1, 8) if (k % 4 == 3) else -1
-                jobs.append((g, dict(threads=nw, blocksize=bs, timeout=to, seed=seed, perturb=[0, 30, 60][k % 3],
-                                     slicing=1 if k else 0, endafter=endafter,
-                                     actions=",".join("%s%d" % a for a in acts)), acts))
+                p = dict(threads=nw, blocksize=bs, timeout=to, seed=seed, perturb=[0, 30, 60][k % 3],
+                         slicing=1 if k else 0, endafter=endafter, actions=",".join("%s%d" % a for a in acts))
+                jobs.append((g, p, acts))
+                if k == 1 and total > 1000:
+                    # the same handle given to lzma_stream_encoder_mt() again without lzma_end(), then a full encode
+                    p2 = dict(p, seed=seed + 7, endafter=-1, reinit_after=rng.randint(1, 6), watchdog=12)
+                    jobs.append((g, p2, acts))
     def exec_job(idx):
         g, params, acts = jobs[idx]
         p = {k: v for k, v in params.items() if not (k == "actions" and v == "")}
@@ -87,30 +117,49 @@ def run(ctx):
     ref_cache = {}
     for idx, res, out in results:
         g, params, acts = jobs[idx]
-        label = "%s:T%d:bs%d:to%d:seed%d:%s" % (g["inp"], g["nw"], g["bs"], g["timeout"], params["seed"], params["actions"])
+        label = "%s:T%d:bs%d:to%d:seed%d:%s%s" % (g["inp"], g["nw"], g["bs"], g["timeout"], params["seed"], params["actions"],
+                                                  ":reinit%d" % params["reinit_after"] if "reinit_after" in params else "")
         ctx.case(key=label)
         rp = dict(kind="run", mode="enc", params=params, input=g["inp"])
+        # a run that re-initialises the handle while Blocks are still being encoded: known-broken history class
+        busy = False
+        if "reinit_after" in params:
+            fe = mtlib.fold(res["events"])[1]
+            ria = [i for i, e in enumerate(fe) if e["e"] == "AppReinit"]
+            if ria:
+                started = [e["w"] for e in fe[:ria[-1]] if e["e"] == "GtStart"]
+                done = [e["w"] for e in fe[:ria[-1]] if e["e"] == "WFinCoder"]
+                busy = len(started) > len(done)
+        pre = "reinit-busy:" if busy else ""
+        _viol = ctx.violation
+        def violation(key, detail, replay_obj=None, _pre=pre):
+            return _viol(_pre + key, detail, replay_obj)
         for key, rep in mtlib.tsan_keys(res["stderr"]):
-            ctx.violation(key, rep, rp)
+            violation(key, rep, rp)
+        if res["hang"] and "reinit_after" in params and lost_unstarted_worker(mtlib.fold(res["events"])[1]):
+            violation("lost-unstarted-worker", "re-initialised encoder hangs: a worker that had been given a Block but had not "
+                          "started was told to stop and never returned to the free stack (%s)" % label, rp)
+            continue
         if res["hang"]:
-            ctx.violation("hang:%s:T%d:to%d" % (g["inp"], g["nw"], g["timeout"]),
+            violation("hang:%s:T%d:to%d" % (g["inp"], g["nw"], g["timeout"]),
                           "driver watchdog fired: deadlock or lost wake-up\n" + json.dumps(res["events"][-10:]), rp)
             continue
         if res["rc"] not in (0, 66):
-            ctx.violation("crash:%s" % g["inp"], "driver exit %s\n%s" % (res["rc"], res["stderr"][-3000:]), rp)
+            violation("crash:%s" % g["inp"], "driver exit %s\n%s" % (res["rc"], res["stderr"][-3000:]), rp)
             continue
         init_ev, evs = mtlib.fold(res["events"])
         if any(e["e"] in ("OVERFLOW", "TOOMANYCALLS") for e in evs):
             raise MachineryError("driver event buffer overflow / too many calls: " + label)
-        blocks = [e for e in evs if e["e"] == "WFinCoder" and e["a"] == 2]
+        ri = max([i for i, e in enumerate(evs) if e["e"] == "Reinited"] + [0])
+        blocks = [e for e in evs[ri:] if e["e"] == "WFinCoder" and e["a"] == 2 and e["d"] == 1]
         data = g["data"]
         # decodability at each completed FULL_FLUSH (FlushDone: a = action, b = input offset, c = output offset)
-        for e in evs:
+        for e in evs[ri:]:
             if e["e"] == "FlushDone" and e["a"] == lz.FULL_FLUSH:
                 c = lz.Coder(); assert c.init("lzma_stream_decoder", lz.UINT64_MAX, 0) == lz.OK
                 r = lz.run_coder(c, out[:e["c"]], out_cap=len(data) + 4096); c.end()
                 if r["out"] != data[:e["b"]] or r["ret"] not in (lz.OK, lz.BUF_ERROR):
-                    ctx.violation("flush:not-decodable:%s" % g["inp"],
+                    violation("flush:not-decodable:%s" % g["inp"],
                                   "after FULL_FLUSH at input offset %d the output so far (%d bytes) decodes to %d bytes (ret %s) (%s)" % (
                                       e["b"], e["c"], len(r["out"]), r["ret"], label), rp)
         rets = [e for e in evs if e["e"] == "Ret"]
@@ -118,17 +167,17 @@ def run(ctx):
         if finished:
             last = rets[-1]["a"] if rets else None
             if last != lz.STREAM_END:
-                ctx.violation("finish:ret:%s" % g["inp"], "encoder ended with %s (%s)" % (last, label), rp)
+                violation("finish:ret:%s" % g["inp"], "encoder ended with %s (%s)" % (last, label), rp)
             else:
                 st = coders.decode_with("lzma_stream_decoder", (lz.UINT64_MAX, 0), out, out_cap=len(data) + 4096)
                 if st["ret"] != lz.STREAM_END or st["out"] != data:
-                    ctx.violation("finish:roundtrip:%s" % g["inp"], "output does not decode to the input (%s)" % label, rp)
+                    violation("finish:roundtrip:%s" % g["inp"], "output does not decode to the input (%s)" % label, rp)
                 else:
                     lay = mtlib.layout(out)
                     got = [b["outsz"] for b in lay["blocks"]]
                     exp = expected_boundaries(len(data), g["bs"], [o for _, o in acts])
                     if got != exp or any(b["hdr"] != "ok" for b in lay["blocks"]):
-                        ctx.violation("finish:boundaries:%s" % g["inp"], "Block sizes %s, expected %s (%s)" % (got[:12], exp[:12], label), rp)
+                        violation("finish:boundaries:%s" % g["inp"], "Block sizes %s, expected %s (%s)" % (got[:12], exp[:12], label), rp)
                     # determinism: same bytes as the single-thread run with the same options and actions
                     rk = (g["inp"], g["bs"], params["actions"])
                     if rk not in ref_cache:
@@ -137,17 +186,17 @@ def run(ctx):
                             p1["actions"] = params["actions"]
                         r1 = mtlib.run_driver(exe, "enc", g["path"], os.path.join(wd, "ref.out"), os.path.join(wd, "ref.tr"), **p1)
                         if r1["hang"] or r1["rc"] not in (0, 66) or not os.path.exists(os.path.join(wd, "ref.out")):
-                            ctx.violation("hang:%s:T1:to0" % g["inp"], "single-thread reference run did not terminate / failed (rc %s)" % r1["rc"],
+                            violation("hang:%s:T1:to0" % g["inp"], "single-thread reference run did not terminate / failed (rc %s)" % r1["rc"],
                                           dict(kind="run", mode="enc", params=p1, input=g["inp"]))
                             ref_cache[rk] = None
                         else:
                             ref_cache[rk] = open(os.path.join(wd, "ref.out"), "rb").read()
                             os.unlink(os.path.join(wd, "ref.out"))
                     if ref_cache[rk] is not None and ref_cache[rk] != out:
-                        ctx.violation("finish:determinism:%s" % g["inp"], "output differs from the 1-thread one-shot output (%s)" % label, rp)
+                        violation("finish:determinism:%s" % g["inp"], "output differs from the 1-thread one-shot output (%s)" % label, rp)
         tailsz = len(out) - 12 - sum(e["b"] for e in blocks) if finished else 0
-        evs2 = [e for e in evs if e["e"] != "FlushDone"]
-        g["runs"].append((label, [{"e": "Reset", "tailsz": max(tailsz, 0)}] + evs2))
+        evs2 = [e for e in evs if e["e"] != "FlushDone" and not (e["e"] == "Reinited" and e["a"] != 0)]
+        g["runs"].append(((pre + label), [{"e": "Reset", "tailsz": max(tailsz, 0)}] + evs2))
     def validate_group(g):
         if not g["runs"]:
             return g, None
@@ -155,7 +204,9 @@ def run(ctx):
         sub = type(ctx)(ctx.pid, ctx.tier, ctx.seed)
         sub.workdir = os.path.join(ctx.workdir, "g%d" % id(g)); os.makedirs(sub.workdir, exist_ok=True)
         sub.findings = ctx.findings
-        tracev.validate(sub, "TraceMtEncoder", g["runs"], lambda label, e, i: "trace:%s:%s" % (label.split(":")[0], e.get("e")),
+        tracev.validate(sub, "TraceMtEncoder", g["runs"],
+                        lambda label, e, i: ("reinit-busy:" if label.startswith("reinit-busy:") else "") +
+                        "trace:%s:%s" % (label.replace("reinit-busy:", "").split(":")[0], e.get("e")),
                         prelude=[cfgline], name="TraceMtEncoder.%s.%d.%d.%d" % (g["inp"], g["nw"], g["bs"], g["timeout"]), maxl=True)
         return g, sub
     with cf.ThreadPoolExecutor(5) as ex:
